@@ -252,7 +252,7 @@ def make_cases(ck, n):
 
 
 def run(ck: Check):
-    ck.prove("SideVerif.Properties.C01")
+    ck.prove("SideVerif.Properties.C01", ["SideVerif.Proofs.Fusion", "SideVerif.Proofs.SpecFlat"])
     n = 2500 if ck.tier == "thorough" else 130
     cases = make_cases(ck, n)
     from collections import Counter as C
